@@ -203,7 +203,8 @@ ANN_CORDS = {
     'requires': ['wf(board.board)', 'kings_ok(board)', 'on_board(square_cords.0 as int, square_cords.1 as int)'],
     'ensures': [
         # C06 (statement): asked about a side's own king square, the answer is "that square is attacked by the other side"
-        '@C06,C02,C13,C04,C05| square_cords == king_sq(board, color) ==> res == ' + ATT,
+        # (kept in the profiles of the properties whose units call is_check; an own obligation of C06 / C01 / C13 only)
+        '@~C06,C01,C13|@C06,C02,C13,C04,C05| square_cords == king_sq(board, color) ==> res == ' + ATT,
         # C01 (statement): castling squares are probed too -- the answer must be right for every square the enemy king is
         # not standing on, "including one attacked by the enemy king"
         '@C01| square_cords != king_sq(board, opp(color)) ==> res == ' + ATT,
